@@ -141,6 +141,10 @@ func C17(env *Env) {
 			}
 		}
 	}
+	if f, g := env.fn("rtmr", "ExtendDigestClient"), env.fn("rtmr", "ExtendEventLogClient"); f != nil && g != nil {
+		env.errorsNotLost("C17/ERRFLOW", inPackages(env.calleesBelow(f, g, env.fn("rtmr", "ExtendDigest"), env.fn("rtmr", "ExtendEventLog")), "rtmr"))
+	}
+	r.Floor("C17/ERRFLOW", 2)
 	r.Floor("C17/ARGS", 5)
 	r.Floor("C17/EXTEND", 4)
 	r.Floor("C17/WRAP", 4)
@@ -228,6 +232,14 @@ func C18(env *Env) {
 	}
 	env.c18Bank()
 	env.c18DefaultOpts()
+	// the two gates are the real verification and validation: their own
+	// structure is decided by the rules of C01 and C08
+	env.via("C01", C01)
+	env.via("C08", C08)
+	if f := env.fn("rtmr", "ParseCcelWithTdQuote"); f != nil {
+		env.errorsNotLost("C18/ERRFLOW", inPackages(env.calleesBelow(f), "rtmr"))
+	}
+	r.Floor("C18/ERRFLOW", 3)
 	r.Floor("C18/GATES", 5)
 	r.Floor("C18/REPLAY", 1)
 	r.Floor("C18/BANK", 4)
